@@ -44,7 +44,11 @@ def gen_struct(rng, leaves):
         if rng.random() < 0.2:
             out.insert(rng.randint(0, len(out)), ['scalar', rng.choice([0, 'x', None, 1.5, True])])
         if kind == 'dict':
-            return ['dict', [[f'k{idx}', x] for idx, x in enumerate(out)]]
+            # key names in no particular order: insertion order (which labtech's dependency search follows) must
+            # not coincide with sorted order
+            names = [f'k{idx}' for idx in range(len(out))]
+            rng.shuffle(names)
+            return ['dict', [[nm, x] for nm, x in zip(names, out)]]
         return [kind, out]
     return build(list(leaves), 0)
 
@@ -408,6 +412,11 @@ class Recorder:
         self.ev.append(('submit', self.tid(task), bool(uc), [self.tid(t) for t in inflight]))
 
     def on_wait(self, inflight):
+        # a coordinator that polls again and again with nothing in flight is spinning: end the run now ('hang')
+        # instead of recording 45 s worth of empty polls
+        self.idle_polls = 0 if inflight else getattr(self, 'idle_polls', 0) + 1
+        if self.idle_polls >= 50:
+            raise HarnessTimeout('spinning: 50 consecutive wait() calls with nothing in flight')
         self.ev.append(('wait', [self.tid(t) for t in inflight]))
         self.batches.append([])
 
